@@ -8,10 +8,11 @@ SPEC = dc.spec(
                "files hold, in every fixed slot, the value of the last committed command that wrote it, and in every variable interval "
                "every record of every committed command.  C01_acknowledged_are_committed: in synchronous mode a request whose "
                "acknowledgement precedes the crash is committed.  C01_refuted: the unguarded statement fails inside the "
-               "continuation-write window.  Classes daily-jan1 (index 0 is the reader's hole: C01_index0_hole) and cross-year-unsorted "
-               "(WriteRecords' prevYear, modelled in write_records) are found by the row-level oracle on the real code.",
+               "continuation-write window.  Class daily-jan1 (index 0 is the reader's hole: C01_index0_hole) is found by the row-level oracle "
+               "on the real code; the former class cross-year-unsorted (WriteRecords' prevYear) is fixed (/repo 49eddda) and its "
+               "witness is a regression.",
     level_note="No axioms.  Section variable: clen (positive).  The theorems are at the level of write commands (what WriteRecords "
-               "queues); the row->command step is modelled (write_records, prevYear quirk included) and tied by trace validation, "
+               "queues); the row->command step is modelled (write_records) and tied by trace validation, "
                "its row-level consequences are checked by the harness oracle on the implementation's own query results.  Modelled "
                "not verified: see C03.",
     design_ref="§6 C01", rule=dc.RULE)
